@@ -108,6 +108,13 @@ package fat2
 //@   requires @json_hands_over_a_value len(data) > 0
 //@   modifies *t
 //@
+//@ // the ticker a name denotes (map lookup in a package-level table): a function of the name
+//@ spec func tickerOf(s string) int
+//@ func StringToTicker
+//@   trusted
+//@   pure
+//@   ensures result == tickerOf(str)
+//@
 //@ // JSON decoding is outside the verified subset (encoding/json): assumed contract.
 //@ func (*TransactionBatch).UnmarshalJSON
 //@   props C20
